@@ -16,7 +16,7 @@ RULE = ("all directed include graphs over 3 files with <= 2 includes each (chain
         "directories, relative names with '..', current directory different from every file's directory; directory "
         "arrangements over 2-4 files in which named files are absent next to their includer and the name as written exists "
         "with other content under the current directory / the root file's directory / the includer's includer's directory "
-        "(expected: inlined parse, cycle chain, or failure to open); histories of 3-5 files through 3-6 parses in one process, "
+        "(expected: inlined parse - same structure AND, in the graph stream, the same full_path() for every node, finding D71 -, cycle chain, or failure to open); histories of 3-5 files through 3-6 parses in one process, "
         "each step editing one or two files (values, include targets, removal, creation) and leaving the others untouched on "
         "disk, every parse judged against the files as they are then; non-trivial = at least one include; distinct = distinct "
         "graph+placement / distinct file table / distinct history prefix")
@@ -33,6 +33,41 @@ class Missing(Exception):
     """the named file does not exist at the place textual inlining looks for it (next to the including file)"""
     def __init__(self, path, by):
         self.path, self.by = path, by
+
+
+def full_paths(sc, out=None):
+    """full_path() of every object of a parsed tree, document order"""
+    out = [] if out is None else out
+    for o in sc.objects:
+        out.append(o.full_path())
+        if o.is_scope:
+            full_paths(o, out)
+    return out
+
+
+def scoped_include_reached(base, graph, placement, root=0):
+    """finding class D71, a predicate on the INPUT: some file reachable from the root has an include statement placed
+    inside a scope"""
+    seen, todo = set(), [root]
+    while todo:
+        i = todo.pop()
+        if i in seen or i >= len(graph):
+            continue
+        seen.add(i)
+        if any(placement[i]):
+            return True
+        todo.extend(graph[i])
+    return False
+
+
+def full_path_clause(want, got):
+    """every node of the tree reports the path it has in the parse of the inlined text"""
+    a, b = full_paths(want), full_paths(got)
+    if a != b:
+        k = [i for i, (x, y) in enumerate(zip(a, b)) if x != y][:1]
+        return ("an included object reports full_path %r; in the parse of the inlined text it is %r"
+                % (b[k[0]], a[k[0]]) if k else "full paths differ in number")
+    return None
 
 
 def file_path(base, i):
@@ -142,7 +177,7 @@ def run(ctx):
                 got = freephil.parse(file_name=root, process_includes=True)
             except BaseException as e:
                 err = e
-            f = None
+            f = fp = None
             if want_cycle:
                 if err is None:
                     f = "include cycle %r not detected" % ([os.path.relpath(p, base) for p in want_cycle],)
@@ -160,7 +195,12 @@ def run(ctx):
                     d = _lay.first_diff(_lay.sig(want), _lay.sig(got))
                     if d:
                         f = "tree differs from the parse of the inlined text at %s" % d
+                    else:
+                        fp = full_path_clause(want, got)
             case = {"graph": [list(t) for t in graph], "placement": placement, "texts": texts}
+            if f is None and fp:
+                ctx.count("full_path_of_included_object_differs")
+                ctx.fail(case, fp, finding=["D71"] if scoped_include_reached(base, graph, placement) else None)
             if f is None:
                 # read_default(caller) = the parameter file next to the caller, with includes processed
                 try:
@@ -781,6 +821,35 @@ def shrink(f):
         len(steps) - 1, r[-1])
     g["original_case"] = case
     return g
+def finding_still_fails(f):
+    """replays the witness of a known finding on the implementation (files written to a scratch directory)"""
+    import tempfile
+    w = f["witness"]
+    if f["id"] == "D71":
+        d = tempfile.mkdtemp(prefix="verif-c13-f-", dir="/var/tmp")
+        try:
+            for name, text in w["files"].items():
+                with open(os.path.join(d, name), "w") as fh:
+                    fh.write(text)
+            got = freephil.parse(file_name=os.path.join(d, w["root"]), process_includes=True)
+            want = freephil.parse(input_string=inline_fs({os.path.join(d, n): t for n, t in w["files"].items()},
+                                                         os.path.join(d, w["root"]), []))
+            if _lay.first_diff(_lay.sig(want), _lay.sig(got)):
+                return False     # not the same tree at all: another matter, the finding covers nothing
+            if full_paths(got) != full_paths(want):
+                return True
+
+            def fetched(t):
+                try:
+                    return t.fetch(source=t).as_str()
+                except RuntimeError as e:
+                    return "RuntimeError: %s" % str(e).split(" (")[0]
+            return fetched(got) != fetched(want)
+        except Exception:        # a tree on which the witness does not even run: the finding covers nothing there
+            return False
+        finally:
+            shutil.rmtree(d, ignore_errors=True)
+    return True
 
 
 def replay(payload):
